@@ -168,6 +168,7 @@ type SV struct {
 	tup []SV    // components of tuple values
 	clo *closure
 	rng *SV // range iterator operand
+	chanKey string // provenance of a channel value loaded from a struct field (for channel invariants)
 	content *Term // spec-function slice parameter: contents as an SMT array (index = off+i)
 }
 
